@@ -12,8 +12,9 @@ git -C /repo worktree add -q --detach $WT HEAD 2>/dev/null || { echo "$name work
 if ! git -C $WT apply $MD/patch.diff 2>/tmp/mutwt/$name.applyerr; then
   echo "$name PATCH-DOES-NOT-APPLY"; git -C /repo worktree remove --force $WT; exit 0
 fi
+mkdir -p /tmp/mutwt/ev-$name
 for p in $props; do
-  out=$(cd /verif && VERIF_ROOT=/tmp/mutwt/ev-$name ./bin/ofverify check $p --repo $WT 2>&1)
+  out=$(cd /verif && VERIF_ROOT=/verif OFV_EVIDENCE_DIR=/tmp/mutwt/ev-$name ./bin/ofverify check $p --repo $WT 2>&1)
   rc=$?
   if [ $rc -eq 1 ] && echo "$out" | grep -q "^VIOLATION property=$p"; then
     echo "$name $p DETECTED: $(echo "$out" | grep -E "^(VIOLATION|UNDECIDED|UNMAPPED) $p" | head -2 | cut -c1-220 | tr '\n' '|')"
